@@ -28,6 +28,7 @@ pub mod c14tls;
 pub mod c15;
 pub mod c15fwd;
 pub mod c16;
+pub mod c16http;
 pub mod c17;
 pub mod c18;
 pub mod c19;
